@@ -495,7 +495,7 @@ func (c *c07) sweep(j *sworld.Judge) int64 {
 						keep = append(keep, v)
 					}
 					seenSig[v.Sig]++
-					if seenSig[v.Sig] >= 20 {
+					if seenSig[v.Sig] >= 3 {
 						often = true
 					}
 				}
